@@ -35,9 +35,19 @@ def _locked_box(cr):
                      "computation: exactly the colour locks that keep data / enable and bundle / scalar apart (contract evaluated on the real LayoutPlanner._determine_locked_wire_colors)")
 
 
+def _inject_box(cr):
+    from bounded.contract_enum import run_contract_enum
+    from contracts import c02
+    iargs = c02.inject_colors_arg_sets()
+    cr.bounded_check(run_contract_enum, "operand-wire-colours-box", c02.inject_colors, iargs,
+                     f"{len(iargs)} combinators (operand plain / resolved through the graph / bundle member / wire-merged / integer; red / green): every signal operand reads "
+                     "exactly the colour(s) it is delivered on (contract evaluated on the real LayoutPlanner._inject_wire_colors_into_placements)")
+
+
 def _boxes(cr):
     _merge_box(cr)
     _locked_box(cr)
+    _inject_box(cr)
 
 
 def run(tier):
